@@ -38,6 +38,17 @@ BLOWFISH_KS = ("// cheap key-dependent stand-in for the 521-encryption key sched
                "}\n",
                "(crate::Blowfish::expand_key, stub_bf_expand)")
 CAST5_KS = ("pub fn stub_c5_ks(_c: &mut crate::Cast5, _key: &[u8]) {}\n", "(crate::Cast5::key_schedule, stub_c5_ks)")
+TWOFISH_KS = ("// cheap key-dependent stand-in for the Twofish key schedule (h function over the q-tables): the first 16 bytes of the\n"
+              "// state are XORed with the key bytes, cycled; no field is named\n"
+              "pub fn stub_tf_ks(t: &mut crate::Twofish, key: &[u8]) {\n"
+              "    let p = t as *mut crate::Twofish as *mut u8;\n"
+              "    let mut i = 0;\n"
+              "    while i < 16 && !key.is_empty() {\n"
+              "        unsafe { *p.add(i) ^= key[i % key.len()] };\n"
+              "        i += 1;\n"
+              "    }\n"
+              "}\n",
+              "(crate::Twofish::key_schedule, stub_tf_ks)")
 
 
 TYPES = [
@@ -66,7 +77,7 @@ TYPES = [
     T("rc2", "crate::Rc2", "Rc2", ["rc2"], 32, 8, accepted="|l| l >= 1 && l <= 128"),
     T("serpent", "crate::Serpent", "Serpent", ["serpent"], 16, 16, accepted="|l| l >= 16 && l <= 32"),
     T("sm4", "crate::Sm4", "Sm4", ["sm4"], 16, 16),
-    T("twofish", "crate::Twofish", "Twofish", ["twofish"], 32, 16, valid=TWOFISH_VALID, accepted="|l| l == 16 || l == 24 || l == 32"),
+    T("twofish", "crate::Twofish", "Twofish", ["twofish"], 32, 16, valid=TWOFISH_VALID, accepted="|l| l == 16 || l == 24 || l == 32", ks_stub=TWOFISH_KS),
     T("xtea", "crate::Xtea", "Xtea", ["xtea"], 16, 8),
     T("threefish", "crate::Threefish256", "Threefish256", ["threefish", "256"], 32, 32),
     T("threefish", "crate::Threefish512", "Threefish512", ["threefish", "512"], 64, 64),
@@ -81,6 +92,40 @@ for w, r, b in [("u32", 12, 16), ("u16", 16, 8), ("u8", 12, 4), ("u64", 24, 24),
     wb = {"u8": 1, "u16": 2, "u32": 4, "u64": 8, "u128": 16}[w]
     TYPES.append(T("rc5", f"crate::RC5<{w}, U{r}, U{b}>", "RC5", ["rc5", str(8 * wb) if False else w, str(r), str(b)], b, 2 * wb, uses=RC5_USES))
 
+
+# Routing stubs: for table-based ciphers the blocks / frame / mixed harnesses (whose subject is buffer routing and state
+# immutability, not what the cipher computes) run with the non-linear leaf uninterpreted -- otherwise the solver has to
+# prove two separately encoded S-box networks equal round by round (Camellia blocks: no answer in 900 s).  The leaf itself
+# is decided over its whole input space by the family's leaf lemma.  crate -> (declarations, stub pairs)
+ROUTE = {
+    "camellia": ("fn rt_conc_f(x: u64, k: u64) -> u64 { refmodels::camellia::f(x, k) }\n"
+                 "uf2!(rt_f, u64, u64, u64, [B0 B1 B2 B3 B4], rt_conc_f);\n"
+                 "pub fn rt_stub_f(x: u64, k: u64) -> u64 { rt_f::call(x, k) }\n",
+                 "(crate::utils::f, rt_stub_f)"),
+    "sm4": ("uf1!(rt_t, u32, u32, [B0 B1 B2 B3 B4], refmodels::sm4::t);\n"
+            "pub fn rt_stub_t(v: u32) -> u32 { rt_t::call(v) }\n",
+            "(crate::t, rt_stub_t)"),
+    "idea": ("uf2!(rt_mul, u16, u16, u16, [B0 B1 B2 B3 B4 B5], refmodels::idea::mul);\n"
+             "pub fn rt_stub_mul(_c: &crate::Idea, a: u16, b: u16) -> u16 { rt_mul::call(a, b) }\n",
+             "(crate::Idea::mul, rt_stub_mul)"),
+    "aria": ("uf1!(rt_fo, u128, u128, [B0 B1 B2], refmodels::aria::fo);\n"
+             "uf1!(rt_fe, u128, u128, [B0 B1 B2], refmodels::aria::fe);\n"
+             "uf1!(rt_s2, u128, u128, [B0], refmodels::aria::sl2);\n"
+             "uf1!(rt_a, u128, u128, [B0], refmodels::aria::a);\n"
+             "pub fn rt_stub_fo(x: u128) -> u128 { rt_fo::call(x) }\n"
+             "pub fn rt_stub_fe(x: u128) -> u128 { rt_fe::call(x) }\n"
+             "pub fn rt_stub_s2(x: u128) -> u128 { rt_s2::call(x) }\n"
+             "pub fn rt_stub_a(x: u128) -> u128 { rt_a::call(x) }\n",
+             "(crate::utils::fo, rt_stub_fo), (crate::utils::fe, rt_stub_fe), (crate::utils::sl2, rt_stub_s2), (crate::utils::a, rt_stub_a)"),
+    "belt-block": ("use core::num::Wrapping;\n"
+                   "uf1!(rt_g5, u32, u32, [B0 B1 B2 B3], refmodels::belt::g5);\n"
+                   "uf1!(rt_g13, u32, u32, [B0 B1 B2 B3], refmodels::belt::g13);\n"
+                   "uf1!(rt_g21, u32, u32, [B0 B1 B2 B3], refmodels::belt::g21);\n"
+                   "pub fn rt_stub_g5(u: Wrapping<u32>) -> Wrapping<u32> { Wrapping(rt_g5::call(u.0)) }\n"
+                   "pub fn rt_stub_g13(u: Wrapping<u32>) -> Wrapping<u32> { Wrapping(rt_g13::call(u.0)) }\n"
+                   "pub fn rt_stub_g21(u: Wrapping<u32>) -> Wrapping<u32> { Wrapping(rt_g21::call(u.0)) }\n",
+                   "(crate::g5, rt_stub_g5), (crate::g13, rt_stub_g13), (crate::g21, rt_stub_g21)"),
+}
 
 # Hand-written per-crate additions appended to the generated xcut.rs: C11 constructor-pair relations at the public API
 # (no private helper is named, so a refactoring of the padding code cannot break the harness, only the property).
@@ -224,6 +269,12 @@ def emit(crate, rows):
          "use super::generic;\nuse super::prelude::*;\n"]
     uses = "".join(sorted({r["uses"] for r in rows}))
     o.append(uses)
+    route_decl, route_pairs = ROUTE.get(crate, ("", ""))
+    if route_decl:
+        o.append("\n// routing stubs (see gen_xcut.py ROUTE): non-linear leaf uninterpreted in the blocks / frame / mixed harnesses\n" + route_decl)
+    rstubs = (", stubs: [%s]" % route_pairs) if route_pairs else ""
+    rmeta = "stub=1 " if route_pairs else ""
+    rnote = " (non-linear leaf uninterpreted; totality with nothing abstracted is decided by the *_total_* harness)" if route_pairs else "; nothing abstracted"
     for t in rows:
         n = ident_of(t)
         ty, bs, kl = t["ty"], t["bs"], t["klen"]
@@ -253,19 +304,22 @@ def emit(crate, rows):
         tier = "thorough" if t["heavy"] else "quick"
         # C15: construction history (process-wide state written by constructors) and mixed-direction history
         ks = (", stubs: [%s]" % stub_pair) if stub_pair else ""
-        o.append('//@ harness name=%s_ctor_history prop=C15 tier=%s bits=%d %sdesc="%s: new(k2) in a fresh process, then new(k1), then new(k2) again gives the same state as the first time, for all keys k1, k2 (no process-wide state written by construction changes a later construction)%s"\n'
-                 % (n, "quick" if (stub_pair or not t["heavy"]) else "thorough", 16 * kl, "stub=1 " if stub_pair else "", ty, "; key schedule replaced by a cheap key-dependent stub" if stub_pair else ""))
+        o.append('//@ harness name=%s_ctor_history prop=C15 tier=%s bits=%d %sdesc="%s: history new(k2) in a fresh process, new(k1), new(k2), new(k3), new(k1): both constructions from k2 give the same state and both from k1 do, for all keys k1, k2, k3 (no process-wide state written by construction changes a later construction; a one-entry cache needs the eviction by k3 to show)%s"\n'
+                 % (n, "quick" if (stub_pair or not t["heavy"]) else "thorough", 24 * kl, "stub=1 " if stub_pair else "", ty, "; key schedule replaced by a cheap key-dependent stub" if stub_pair else ""))
         o.append("g_ctor_history!(%s_ctor_history, %s, %d, %s%s);\n" % (n, ty, kl, t["exempt"], ks))
         if set(t["dirs"]) == {"enc", "dec"}:
-            o.append('//@ harness name=%s_mixed prop=C15,C20 tier=%s bits=%d desc="%s: on one arbitrary-state instance the history enc(x); dec(x); dec(y); enc(y) returns for dec(x) and enc(y) what a pristine instance with the same state returns (no memoisation across directions), instance bytes unchanged"\n' % (n, tier, 16 * bs + 64, ty))
-            o.append("g_mixed!(%s_mixed, %s, %d, %s);\n" % (n, ty, bs, t["valid"]))
+            o.append('//@ harness name=%s_mixed prop=C15,C20 tier=%s bits=%d %sdesc="%s: on one arbitrary-state instance the history enc(x); dec(x); dec(y); enc(y) returns for dec(x) and enc(y) what a pristine instance with the same state returns (no memoisation across directions), instance bytes unchanged%s"\n' % (n, tier, 16 * bs + 64, rmeta, ty, rnote))
+            o.append("g_mixed!(%s_mixed, %s, %d, %s%s);\n" % (n, ty, bs, t["valid"], rstubs))
         for d in t["dirs"]:
             if t["frame"]:
-                o.append('//@ harness name=%s_frame_%s prop=C15,C20 tier=%s bits=%d desc="%s: %s_block on an arbitrary valid state returns for every block (no panic / overflow / bounds failure); the history op(x); op(y); op(x) on one instance gives equal first and third results and leaves every byte of the instance unchanged; nothing abstracted"\n' % (n, d, tier, 16 * bs + 64, ty, "encrypt" if d == "enc" else "decrypt"))
-                o.append("g_frame1!(%s_frame_%s, %s, %d, %s, %s);\n" % (n, d, ty, bs, t["valid"], d))
+                o.append('//@ harness name=%s_frame_%s prop=C15,C20 tier=%s bits=%d %sdesc="%s: %s_block on an arbitrary valid state returns for every block (no panic / overflow / bounds failure); the history op(x); op(y); op(x) on one instance gives equal first and third results and leaves every byte of the instance unchanged%s"\n' % (n, d, tier, 16 * bs + 64, rmeta, ty, "encrypt" if d == "enc" else "decrypt", rnote))
+                o.append("g_frame1!(%s_frame_%s, %s, %d, %s, %s%s);\n" % (n, d, ty, bs, t["valid"], d, rstubs))
+                if route_pairs:
+                    o.append('//@ harness name=%s_total_%s prop=C20 tier=%s bits=%d desc="%s: one %s_block call on an arbitrary valid state and block returns and leaves the instance unchanged; NOTHING abstracted (every overflow / bounds / shift / unwrap / debug assertion on the path is an obligation)"\n' % (n, d, tier, 8 * bs + 64, ty, "encrypt" if d == "enc" else "decrypt"))
+                    o.append("g_total!(%s_total_%s, %s, %d, %s, %s);\n" % (n, d, ty, bs, t["valid"], d))
             if t["blocks"]:
-                o.append('//@ harness name=%s_blocks_%s prop=C04,C20 tier=%s bits=%d desc="%s (%s): multi-block in place, multi-block b2b and single b2b calls with n symbolic in 0..=%d equal per-block in-place calls; separate input unchanged; output blocks >= n untouched; arbitrary valid state"\n' % (n, d, tier, 8 * bs * t["nb"] + 72, ty, d, t["nb"]))
-                o.append("g_blocks1!(%s_blocks_%s, %s, %d, %d, %s, %s);\n" % (n, d, ty, bs, t["nb"], t["valid"], d))
+                o.append('//@ harness name=%s_blocks_%s prop=C04,C20 tier=%s bits=%d %sdesc="%s (%s): multi-block in place, multi-block b2b and single b2b calls for every n in 0..=%d equal per-block in-place calls; separate input unchanged; output blocks >= n untouched; arbitrary valid state%s"\n' % (n, d, tier, 8 * bs * t["nb"] + 72, rmeta, ty, d, t["nb"], " (non-linear leaf uninterpreted)" if route_pairs else ""))
+                o.append("g_blocks1!(%s_blocks_%s, %s, %d, %d, %s, %s%s);\n" % (n, d, ty, bs, t["nb"], t["valid"], d, rstubs))
     o.append(EXTRA.get(crate, ""))
     p = os.path.join(VERIF, "harness", crate, "xcut.rs")
     os.makedirs(os.path.dirname(p), exist_ok=True)
@@ -288,6 +342,9 @@ def main():
     for prop in ("C04", "C11", "C13", "C15", "C19", "C20"):
         lines.append('    "%s": [%s],\n' % (prop, ", ".join('("%s", ["%s/xcut.rs"])' % (c, c) for c in crates)))
     lines.append('    "C16": [%s],\n' % ", ".join('("%s+zeroize", ["%s/xcut.rs"])' % (c, c) for c in crates))
+    # C03 (features change no output), constructor side: the key-length / constructor-pair harnesses of C11 are re-run
+    # on the zeroize build of every crate (a feature-gated constructor path that drops or alters key bytes fails there)
+    lines.append('    "C03": [%s],\n' % ", ".join('("%s+zeroize", ["%s/xcut.rs"], {"include_props": ["C11"]})' % (c, c) for c in crates))
     lines.append("}\n")
     open(os.path.join(VERIF, "lib", "bcv", "plans", "xcut.py"), "w").write("".join(lines))
     print("generated xcut.rs for %d crates, %d types" % (len(crates), len(TYPES)))
